@@ -58,6 +58,17 @@ Definition prog (n : nat) (sh : shape) : list act :=
   ++ [ATsEnd; AWait 3; ASnapshot]
   ++ drops n sh.
 
+(** [sync_impl] (972-1034) clears the tally and waits a second time only
+    inside [if let Some(alloc_info) = ThreadAllocInfo::current()]: a thread on
+    which [current()] is None (thread-local already destroyed; on macOS also a
+    failed allocation of the pthread-specific slot) skips both. *)
+Definition prog_noinfo (n : nat) (sh : shape) : list act :=
+  map AGen (seq 0 n)
+  ++ [AWait 1; ATsStart]
+  ++ map ACall (seq 0 n)
+  ++ [ATsEnd; AWait 3; ASnapshot]
+  ++ drops n sh.
+
 (** User code (may panic, may allocate). *)
 Definition faultable (a : act) : bool :=
   match a with AGen _ | ACall _ | ADrop _ _ => true | _ => false end.
@@ -72,9 +83,14 @@ Record config : Type := {
   ssize : nat -> nat;                     (* sample size of round r *)
   shp : shape;
   guard : bool;                           (* true: the code after 80a110a (SampleBarrier) *)
+  has_info : nat -> bool;                 (* thread: ThreadAllocInfo::current() is Some on that thread *)
   fault : nat -> nat -> nat -> bool;      (* thread, round, program position: user code panics there *)
   allocs : nat -> nat -> nat -> list aop  (* thread, round, program position: what user code allocates there *)
 }.
+
+(** The program of thread i in round r. *)
+Definition tprog (c : config) (r i : nat) : list act :=
+  if has_info c i then prog (ssize c r) (shp c) else prog_noinfo (ssize c r) (shp c).
 
 (** * Thread and barrier state *)
 
@@ -131,7 +147,7 @@ Definition tstep (c : config) (r i : nat) (th : thread) (b : barrier) : option (
   | Unwind, Some g =>
     if g =? bgen b then None else Some (set_blk th None, b)
   | Run, None =>
-    match nth_error (prog (ssize c r) (shp c)) (pc th) with
+    match nth_error (tprog c r i) (pc th) with
     | None => Some (set_md th Returned, b)
     | Some (AWait _) =>
       (* SampleBarrier::wait: remaining.saturating_sub(1), then barrier.wait() *)
@@ -405,7 +421,7 @@ Fixpoint taus (fuel : nat) (c : config) (st : state) : state :=
 Definition obs_step (c : config) (st : state) (t : nat) (e : evk) : option state :=
   match gp st, nth_error (ths st) t with
   | GRun, Some th =>
-    let p := prog (ssize c (round st)) (shp c) in
+    let p := tprog c (round st) t in
     match md th, blk th, e with
     | Run, Some _, ELeave w =>
       match nth_error p (pc th) with
@@ -506,7 +522,7 @@ Definition step_event (c : config) (st : state) (l : label) : option (nat * evk)
   | LThread i, GRun =>
     match nth_error (ths st) i with
     | Some th =>
-      match md th, blk th, nth_error (prog (ssize c (round st)) (shp c)) (pc th) with
+      match md th, blk th, nth_error (tprog c (round st) i) (pc th) with
       | Run, Some _, Some (AWait w) => Some (i, ELeave w)
       | Run, None, Some a =>
         if faultable a && fault c i (round st) (pc th) then Some (i, EPanic) else Some (i, ev_of_act a)
